@@ -1,5 +1,9 @@
 import CryoCat.Lemmas.C17
 import CryoCat.Lemmas.C17_Mdoc
+import CryoCat.Lemmas.C17_ParseWF
+import CryoCat.Lemmas.C17_ParseWF2
+import CryoCat.Lemmas.C17_Table
+import CryoCat.Model.C17_Load
 import Mathlib.Tactic.Ring
 import Mathlib.Algebra.Field.Basic
 /-! C17 — property theorems (tilt-series metadata). Only theorems and non-vacuity examples. -/
@@ -472,5 +476,312 @@ theorem read_write_read (lines : List Str) (m : Mdoc) (hp : parseMdoc lines = so
     exact this rows hfresh
 
 example : wfb m₀ = true := by decide
+
+/-! ### the mdoc loop closed: a class of *texts* on which reading, writing and reading again is the identity -/
+
+/-- **parse_wf.** For every text of the class `textOk` — decided line by line, without running the reader: every
+header title survives bracket stripping, every `key = value` line has a non-empty key that does not begin with '[' and a
+value that is not a float of the exponent-form class (C17-K1; for `TiltAngle`: after the conversion to float) — whatever
+`_read_mdoc` returns is a well-formed object. No per-case evaluation of `wfb` is needed any more. -/
+theorem parse_wf (lines : List Str) (m : Mdoc) (hp : parseMdoc lines = some m) (hok : textOk lines = true) :
+    wfb m = true ∧ WF m :=
+  ⟨parse_wfb lines m hp hok, wf_of_wfb m (parse_wfb lines m hp hok)⟩
+
+/-- **the class is exact**: for a text the reader accepts, membership in `textOk` is *equivalent* to the well-formedness of
+the object read — no larger class of texts yields well-formed objects -/
+theorem text_class_exact (lines : List Str) (m : Mdoc) (hp : parseMdoc lines = some m) : textOk lines = true ↔ wfb m = true :=
+  ⟨parse_wfb lines m hp, textOk_of_wfb lines m hp⟩
+
+/-- **read ∘ write ∘ read = read, unconditionally on the class**: an mdoc text of the class that cryoCAT can read at all is
+read, written (all images) and re-read to the same header entries and the same per-image table -/
+theorem read_write_read_text (lines : List Str) (m : Mdoc) (hp : parseMdoc lines = some m) (hok : textOk lines = true) :
+    parseMdoc (printMdoc true m) = some m :=
+  read_write_read lines m hp (parse_wfb lines m hp hok)
+
+/-- … and the written text is a fixed point of write ∘ read: a second round trip reproduces the file character by character -/
+theorem write_read_write_text (lines : List Str) (m : Mdoc) (hp : parseMdoc lines = some m) (hok : textOk lines = true) :
+    (parseMdoc (printMdoc true m)).map (printMdoc true) = some (printMdoc true m) := by
+  rw [read_write_read_text lines m hp hok]; rfl
+
+/-- **the whole property for a text of the class, in one statement**: read it, apply any sequence of `sort_by_tilt` and
+`remove_images` calls that does not raise, write with `removed=False`, read the result — the header entries, titles and
+columns are those of the first read, and the table holds exactly the kept images of the final object (cells and section
+values unchanged, flags cleared) -/
+theorem text_ops_write_read (lines : List Str) (m m' : Mdoc) (ops : List Op) (hp : parseMdoc lines = some m)
+    (hok : textOk lines = true) (ha : applyOps ops m = some m') (hne : keptImages m' ≠ []) :
+    parseMdoc (printMdoc false m') = some { m' with rows := (keptImages m').map (fun r => { r with removed := false }) } :=
+  written_file_has_kept_images m' (wf_applyOps ops m m' (parse_wf lines m hp hok).2 ha) hne
+
+/-- a value line of the class is typed into a value that is stable, whatever the raw spelling (leading zeros, `.5`, `5.`,
+blanks, negative numbers and other text) -/
+theorem typed_value_stable (raw : Str) (hne : '=' ∉ raw) (hp : plainVal (classify raw) = true) :
+    classify (classify raw).fmt = classify raw :=
+  stable_of_plain _ (stableVal_classify raw hne hp)
+
+/-- non-vacuity: a text with blanks around '=', leading zeros, a negative tilt, a title and a text value is in the class,
+is read, and the theorem's conclusion holds on it by evaluation -/
+def t₀ : List Str :=
+  ["PixelSpacing = 1.9710".toList, "Voltage=300".toList, "Empty = ".toList, "".toList, "[T = SerialEM: x]".toList, "".toList,
+   "[ZValue = 00]".toList, "TiltAngle = -052.0064".toList, "SubFramePath = X:\\f 1.tif".toList, "Dose  =  .5".toList, "".toList,
+   "[ZValue = 1]".toList, "TiltAngle = 3".toList, "SubFramePath = a.tif".toList, "Dose = 7.".toList]
+
+example : textOk t₀ = true := by decide
+example : (parseMdoc t₀).isSome = true := by decide
+example : (parseMdoc t₀).bind (fun m => parseMdoc (printMdoc true m)) = parseMdoc t₀ := by decide
+/-- outside the class: a float of the exponent-form class, a key beginning with '[' -/
+example : textOk ["[ZValue = 0]".toList, "TiltAngle = 1".toList, "Dose = 0.00001".toList] = false := by decide
+example : textOk ["[ZValue = 0]".toList, "TiltAngle = 1".toList, " [ZValue = 2".toList] = false := by decide
+
+/-! ### the wedge list through a STAR file (relative to the round-trip property C02 of the STAR layer) -/
+
+/-- the STAR block name and column numbering the wedge list is written with; `wedge_list_sg_to_em` groups by `tomo_num` -/
+theorem wedge_star_documented : Gen.C17.wedgeSpecifier = "data_stopgap_wedgelist" ∧ Gen.C17.wedgeNumberColumns = false ∧
+    Gen.C17.sgToEmGroupAgg = ["tomo_num", "tilt_angle", "min", "max"] := by decide
+
+/-- the columns of the written table: the documented list without `defocus` / `exposure` when no row carries one -/
+theorem wedge_table_columns {α : Type} (rows : List (WedgeRow α)) (hne : rows ≠ []) :
+    (sgTable rows).cols = wedgeHeader (rows.any (fun r => r.defocus.isSome)) (rows.any (fun r => r.exposure.isSome)) ∧
+    (sgTable rows).rows.length = rows.length := ⟨sgTable_cols rows hne, by simp [sgTable]⟩
+
+/-- **wedge_via_file.** For every STAR layer that round-trips well-formed tables (`q` = its number conversion), every
+batch of tomograms with a CTF input for all or none and a dose input for all or none: the wedge list written by
+`create_wedge_list_sg_batch(output_file=…)` has the documented columns (one table row per tilt per tomogram), and
+`load_wedge_list_sg` of that file gives the same rows in the same order, every number through `q`, the tomogram number
+unchanged. -/
+theorem wedge_via_file {α β F : Type} (q : α → β) (write : String → StarTable α → F) (read : F → Option (StarTable β))
+    (hstar : StarRoundTrip q write read) (c : Consts α) (ts : List (Tomo α)) (rows : List (WedgeRow α))
+    (h : wedgeBatch c ts = some rows) (hne : rows ≠ []) (hasCtf hasDose : Bool)
+    (huni : ∀ t ∈ ts, t.defocus.isSome = hasCtf ∧ t.dose.isSome = hasDose) :
+    (sgTable rows).cols = wedgeHeader hasCtf hasDose ∧
+    (read (write Gen.C17.wedgeSpecifier (sgTable rows))).bind loadSg = some (rows.map (WedgeRow.map q)) := by
+  have hflags := wedgeBatch_flags c ts rows h
+  have hd : ∀ r ∈ rows, r.defocus.isSome = hasCtf := fun r hr => by
+    obtain ⟨t, ht, h1, _⟩ := hflags r hr; rw [h1]; exact (huni t ht).1
+  have he : ∀ r ∈ rows, r.exposure.isSome = hasDose := fun r hr => by
+    obtain ⟨t, ht, _, h2⟩ := hflags r hr; rw [h2]; exact (huni t ht).2
+  constructor
+  · rw [sgTable_cols rows hne]
+    cases rows with
+    | nil => exact absurd rfl hne
+    | cons r rs =>
+      have e1 : ((r :: rs).any fun r => r.defocus.isSome) = hasCtf := by
+        cases hc : hasCtf with
+        | true => simp only [List.any_eq_true]; exact ⟨r, by simp, by rw [hd r (by simp), hc]⟩
+        | false =>
+          rw [Bool.eq_false_iff]; intro ha
+          simp only [List.any_eq_true] at ha
+          obtain ⟨x, hx, hx2⟩ := ha
+          rw [hd x hx, hc] at hx2; cases hx2
+      have e2 : ((r :: rs).any fun r => r.exposure.isSome) = hasDose := by
+        cases hc : hasDose with
+        | true => simp only [List.any_eq_true]; exact ⟨r, by simp, by rw [he r (by simp), hc]⟩
+        | false =>
+          rw [Bool.eq_false_iff]; intro ha
+          simp only [List.any_eq_true] at ha
+          obtain ⟨x, hx, hx2⟩ := ha
+          rw [he x hx, hc] at hx2; cases hx2
+      rw [e1, e2]
+  · rw [hstar _ _ (sgTable_starWF rows hne hasCtf hasDose hd he)]
+    exact load_sgTable q rows
+
+/-- the table is readable row by row also when some tomograms have no CTF / dose input (NaN cells), for any conversion `q` -/
+theorem wedge_table_rows {α β : Type} (q : α → β) (rows : List (WedgeRow α)) :
+    loadSg ((sgTable rows).mapCells q) = some (rows.map (WedgeRow.map q)) := load_sgTable q rows
+
+/-- **sg_to_em grouping.** `wedge_list_sg_to_em` never fails on a wedge list and returns **one EM row per tomogram**:
+the tomogram numbers strictly ascending (so duplicates — also interleaved ones — are merged), exactly the numbers that
+occur in the list; each row's minimum and maximum are tilt angles of that tomogram's rows and bound all of them. -/
+theorem sg_to_em_groups {α : Type} (le : α → α → Bool) (htr : ∀ a b c, le a b = true → le b c = true → le a c = true)
+    (htot : ∀ a b, (le a b || le b a) = true) (rows : List (Int × α)) :
+    ∃ out, sgToEm le rows = some out ∧
+      (out.map (·.1)).Pairwise (· < ·) ∧ (∀ k, k ∈ out.map (·.1) ↔ k ∈ rows.map (·.1)) ∧
+      ∀ e ∈ out, (e.1, e.2.1) ∈ rows ∧ (e.1, e.2.2) ∈ rows ∧ ∀ x, (e.1, x) ∈ rows → le e.2.1 x = true ∧ le x e.2.2 = true := by
+  have hkeys := groupKeys_spec (rows.map (·.1))
+  have hnonempty : ∀ t ∈ (groupKeys (rows.map (·.1))).map (fun k => (k, (rows.filter (fun r => r.1 == k)).map (·.2))), t.2 ≠ [] := by
+    intro t ht
+    obtain ⟨k, hk, rfl⟩ := List.mem_map.1 ht
+    obtain ⟨r, hr, hrk⟩ := List.mem_map.1 ((hkeys.2 k).1 hk)
+    intro he
+    simp only [List.map_eq_nil_iff, List.filter_eq_nil_iff] at he
+    exact he r hr (by simp [hrk])
+  obtain ⟨out, ho⟩ := wedgeEm_some le _ hnonempty
+  obtain ⟨hlen, hget⟩ := wedge_em_minmax le htr htot _ out ho
+  have hfst : out.map (·.1) = groupKeys (rows.map (·.1)) := by
+    apply List.ext_getElem?
+    intro i
+    simp only [List.getElem?_map]
+    cases hk : (groupKeys (rows.map (·.1)))[i]? with
+    | none =>
+      have : out[i]? = none := by
+        rw [List.getElem?_eq_none_iff] at hk ⊢
+        simp only [List.length_map] at hlen; omega
+      simp [this]
+    | some k =>
+      obtain ⟨lo, hi, hout, _⟩ := hget i (k, (rows.filter (fun r => r.1 == k)).map (·.2)) (by simp [List.getElem?_map, hk])
+      simp [hout]
+  refine ⟨out, ho, ?_, ?_, ?_⟩
+  · rw [hfst]; exact hkeys.1
+  · intro k; rw [hfst]; exact hkeys.2 k
+  · intro e he
+    obtain ⟨i, hi, hei⟩ := List.getElem_of_mem he
+    have hi2 : i < (groupKeys (rows.map (·.1))).length := by simp only [List.length_map] at hlen; omega
+    obtain ⟨lo, hi', hout, hlo, hhi, hb⟩ := hget i ((groupKeys (rows.map (·.1)))[i],
+      (rows.filter (fun r => r.1 == (groupKeys (rows.map (·.1)))[i])).map (·.2)) (by simp [List.getElem?_map, hi2])
+    rw [List.getElem?_eq_getElem hi, hei] at hout
+    injection hout with hout
+    subst hout
+    simp only at hlo hhi hb ⊢
+    have mem_grp : ∀ x, x ∈ (rows.filter (fun r => r.1 == (groupKeys (rows.map (·.1)))[i])).map (·.2) ↔ ((groupKeys (rows.map (·.1)))[i], x) ∈ rows := by
+      intro x
+      simp only [List.mem_map, List.mem_filter, beq_iff_eq]
+      constructor
+      · rintro ⟨r, ⟨hr, hk⟩, rfl⟩; rw [← hk]; exact hr
+      · intro hx; exact ⟨_, ⟨hx, rfl⟩, rfl⟩
+    exact ⟨(mem_grp lo).1 hlo, (mem_grp hi').1 hhi, fun x hx => hb x ((mem_grp x).2 hx)⟩
+
+/-- the order hypotheses are met by `≤` on the integers (the driver uses `≤` on `Rat`): interleaved duplicates of 7 and 2 -/
+example : ∃ out, sgToEm (fun (a b : Int) => decide (a ≤ b)) [(7, 3), (2, 4), (7, -5), (2, 1), (7, 9)] = some out ∧
+    (out.map (·.1)).Pairwise (· < ·) :=
+  let ⟨out, h1, h2, _⟩ := sg_to_em_groups (fun (a b : Int) => decide (a ≤ b))
+    (fun a b c hab hbc => by simp only [decide_eq_true_eq] at *; omega)
+    (fun a b => by simp only [Bool.or_eq_true, decide_eq_true_eq]; omega) [(7, 3), (2, 4), (7, -5), (2, 1), (7, 9)]
+  ⟨out, h1, h2⟩
+
+/-- **sg_to_em through the file**: converting the written wedge list gives, for every tomogram of the batch, the minimum and
+maximum of its (converted) tilt angles — the grouping theorem applies to `rows.map (tomo_num, q tilt_angle)` -/
+theorem sg_to_em_via_file {α β F : Type} (q : α → β) (write : String → StarTable α → F) (read : F → Option (StarTable β))
+    (hstar : StarRoundTrip q write read) (le : β → β → Bool) (c : Consts α) (ts : List (Tomo α)) (rows : List (WedgeRow α))
+    (h : wedgeBatch c ts = some rows) (hne : rows ≠ []) (hasCtf hasDose : Bool)
+    (huni : ∀ t ∈ ts, t.defocus.isSome = hasCtf ∧ t.dose.isSome = hasDose) :
+    (read (write Gen.C17.wedgeSpecifier (sgTable rows))).bind (sgToEmFile le)
+      = sgToEm le (rows.map (fun r => (r.tomoNum, q r.tiltAngle))) := by
+  have hv := (wedge_via_file q write read hstar c ts rows h hne hasCtf hasDose huni).2
+  cases hr : read (write Gen.C17.wedgeSpecifier (sgTable rows)) with
+  | none => rw [hr] at hv; cases hv
+  | some t =>
+    rw [hr] at hv
+    simp only [Option.bind_some] at hv ⊢
+    simp only [sgToEmFile, hv, Option.bind_some, List.map_map]
+    rfl
+
+/-! ### loaders: which reader an input is sent to -/
+
+/-- the dispatch tables of `tlt_load`, `total_dose_load` and `defocus_load`, re-extracted from the source -/
+theorem loader_dispatch_documented :
+    Gen.C17.tltTypeChain = ["np.ndarray", "list", "str"] ∧
+    Gen.C17.tltDispatch = [(['.', 'm', 'd', 'o', 'c'], "mdoc.Mdoc"), (['.', 'x', 'm', 'l'], "get_data_from_warp_xml")] ∧
+    Gen.C17.tltDefault = "one_value_per_line_read" ∧
+    Gen.C17.tltReturns = [("np.ndarray", "input_tlt"), ("list", "np.asarray(input_tlt)")] ∧ Gen.C17.tltSortsFilesOnly = true ∧
+    Gen.C17.doseTypeChain = ["np.ndarray", "list", "str"] ∧
+    Gen.C17.doseDispatch = [(['.', 'c', 's', 'v'], "pd.read_csv"), (['.', 'm', 'd', 'o', 'c'], "mdoc.Mdoc"), (['.', 'x', 'm', 'l'], "get_data_from_warp_xml")] ∧
+    Gen.C17.doseDefault = "one_value_per_line_read" ∧
+    Gen.C17.doseReturns = [("np.ndarray", "input_dose"), ("list", "np.asarray(input_dose)")] ∧ Gen.C17.doseSortsMdocByDefault = true ∧
+    Gen.C17.defocusTypeChain = ["pd.DataFrame", "str"] ∧
+    Gen.C17.defocusDispatch = [("gctf", "gctf_read"), ("ctffind4", "ctffind4_read"), ("warp", "warp_ctf_read")] ∧
+    Gen.C17.defocusLowers = true ∧
+    Gen.C17.defocusArrayColumns = ["defocus1", "defocus2", "astigmatism", "phase_shift", "defocus_mean"] := by decide
+
+/-- `.mdoc` paths go to the mdoc reader, in both loaders -/
+theorem mdoc_extension (path : List Char) (h : endsWith path ['.', 'm', 'd', 'o', 'c'] = true) :
+    dispatch Gen.C17.tltDispatch Gen.C17.tltDefault path = "mdoc.Mdoc" ∧
+    (endsWith path ['.', 'c', 's', 'v'] = false → dispatch Gen.C17.doseDispatch Gen.C17.doseDefault path = "mdoc.Mdoc") := by
+  constructor
+  · simp [dispatch, Gen.C17.tltDispatch, h]
+  · intro h2; simp [dispatch, Gen.C17.doseDispatch, List.find?, h, h2]
+
+/-- every other extension that is not `.xml` (resp. `.csv`) — `.tlt`, `.rawtlt`, `.txt`, none at all — goes to `one_value_per_line_read` -/
+theorem default_extension (path : List Char) (h1 : endsWith path ['.', 'm', 'd', 'o', 'c'] = false) (h2 : endsWith path ['.', 'x', 'm', 'l'] = false) :
+    dispatch Gen.C17.tltDispatch Gen.C17.tltDefault path = "one_value_per_line_read" ∧
+    (endsWith path ['.', 'c', 's', 'v'] = false → dispatch Gen.C17.doseDispatch Gen.C17.doseDefault path = "one_value_per_line_read") := by
+  constructor
+  · simp [dispatch, Gen.C17.tltDispatch, Gen.C17.tltDefault, List.find?, h1, h2]
+  · intro h3; simp [dispatch, Gen.C17.doseDispatch, Gen.C17.doseDefault, List.find?, h1, h2, h3]
+
+example : dispatch Gen.C17.tltDispatch Gen.C17.tltDefault "TS_01/017.rawtlt".toList = "one_value_per_line_read" ∧
+    dispatch Gen.C17.tltDispatch Gen.C17.tltDefault "a.tlt".toList = "one_value_per_line_read" ∧
+    dispatch Gen.C17.tltDispatch Gen.C17.tltDefault "a.mdoc.txt".toList = "one_value_per_line_read" ∧
+    dispatch Gen.C17.tltDispatch Gen.C17.tltDefault "TS_01.mrc.mdoc".toList = "mdoc.Mdoc" ∧
+    dispatch Gen.C17.doseDispatch Gen.C17.doseDefault "dose.txt".toList = "one_value_per_line_read" := by decide
+
+/-- **`tlt_load`: arrays and lists are returned as given** — in the given order, *not* sorted — and an empty one raises -/
+theorem tlt_array_as_given {α : Type} (le : α → α → Bool) (s : Bool) (xs : List α) (hne : xs ≠ []) :
+    tltLoadIn le s (.array xs) = some xs ∧ tltLoadIn le s (.list xs) = some xs ∧
+    tltLoadIn le s (.array ([] : List α)) = none ∧ tltLoadIn le s (.list ([] : List α)) = none := by
+  cases xs with
+  | nil => exact absurd rfl hne
+  | cons x xs => exact ⟨rfl, rfl, rfl, rfl⟩
+
+/-- **`tlt_load(path)`**: whatever reader the extension selects, the result is a permutation of what that reader returns,
+ascending when `sort_angles` (default) -/
+theorem tlt_file_sorted {α : Type} (le : α → α → Bool) (htr : ∀ a b c, le a b = true → le b c = true → le a c = true)
+    (htot : ∀ a b, (le a b || le b a) = true) (path : List Char) (v : FileViews α) (out : List α)
+    (h : tltLoadIn le true (.file path v) = some out) :
+    out.Pairwise (fun a b => le a b = true) ∧
+    ∃ raw, readByExt Gen.C17.tltDispatch Gen.C17.tltDefault path v = some raw ∧ out.Perm raw := by
+  simp only [tltLoadIn, loader_dispatch_documented.2.2.2.2.1, Bool.and_self] at h
+  cases hr : readByExt Gen.C17.tltDispatch Gen.C17.tltDefault path v with
+  | none => simp [hr] at h
+  | some raw =>
+    simp only [hr, Option.map_some, Option.some.injEq] at h
+    subst h
+    exact ⟨by simpa [tltLoad] using List.pairwise_mergeSort htr htot raw, raw, rfl, tlt_perm le true raw⟩
+
+/-- an `.mdoc` path yields the mdoc's TiltAngle column, any other non-xml path the numbers of the file; an empty file raises -/
+theorem tlt_file_reader {α : Type} (le : α → α → Bool) (s : Bool) (path : List Char) (v : FileViews α) :
+    (endsWith path ['.', 'm', 'd', 'o', 'c'] = true → tltLoadIn le s (.file path v) = v.mdoc.map (tltLoad le s)) ∧
+    (endsWith path ['.', 'm', 'd', 'o', 'c'] = false → endsWith path ['.', 'x', 'm', 'l'] = false →
+      tltLoadIn le s (.file path v) = (oneValuePerLine v).map (tltLoad le s)) := by
+  constructor
+  · intro h
+    simp [tltLoadIn, readByExt, (mdoc_extension path h).1, loader_dispatch_documented.2.2.2.2.1]
+  · intro h1 h2
+    simp [tltLoadIn, readByExt, (default_extension path h1 h2).1, loader_dispatch_documented.2.2.2.2.1]
+
+/-- **`total_dose_load`**: arrays and lists as given; an `.mdoc` path yields the mdoc dose (prior + exposure, theorem
+`mdoc_dose`), any other path that is not `.csv` / `.xml` the numbers of the file in file order -/
+theorem dose_input_dispatch {α : Type} (xs : List α) (path : List Char) (v : FileViews α) :
+    doseLoadIn (.array xs) = some xs ∧ doseLoadIn (.list xs) = some xs ∧
+    (endsWith path ['.', 'c', 's', 'v'] = false → endsWith path ['.', 'm', 'd', 'o', 'c'] = true → doseLoadIn (.file path v) = v.mdoc) ∧
+    (endsWith path ['.', 'c', 's', 'v'] = false → endsWith path ['.', 'm', 'd', 'o', 'c'] = false → endsWith path ['.', 'x', 'm', 'l'] = false →
+      doseLoadIn (.file path v) = oneValuePerLine v) := by
+  have hid : (doseLoad : List α → List α) = id := rfl
+  refine ⟨rfl, rfl, ?_, ?_⟩
+  · intro h0 h
+    simp [doseLoadIn, readByExt, (mdoc_extension path h).2 h0, hid]
+  · intro h0 h1 h2
+    simp [doseLoadIn, readByExt, (default_extension path h1 h2).2 h0, hid]
+
+/-- **`defocus_load`**: a DataFrame is returned as is; an N×5 array becomes the five documented columns row by row (any other
+width raises); a path is sent to the reader named by `file_type`, compared case-insensitively; an unknown type raises -/
+theorem defocus_input_dispatch {K : Type} [_root_.Field K] (fG fC d : K) (rows : List (Defocus K))
+    (g : Option (List (K × K × K × Option K))) (c : Option (List (K × K × K × K))) (ft : String) :
+    defocusLoadIn fG fC d (.frame rows) = some rows ∧
+    (asciiLower ft = "gctf" → defocusLoadIn fG fC d (.file ft g c) = g.map (gctfRead fG d)) ∧
+    (asciiLower ft = "ctffind4" → defocusLoadIn fG fC d (.file ft g c) = c.map (ctffindRead fC d)) ∧
+    (Gen.C17.defocusDispatch.lookup (asciiLower ft) = none → defocusLoadIn fG fC d (.file ft g c) = none) := by
+  refine ⟨rfl, ?_, ?_, ?_⟩
+  · intro h
+    simp [defocusLoadIn, defocusReader, Gen.C17.defocusLowers, Gen.C17.defocusDispatch, h, List.lookup]
+  · intro h
+    simp [defocusLoadIn, defocusReader, Gen.C17.defocusLowers, Gen.C17.defocusDispatch, h, List.lookup]
+  · intro h
+    simp [defocusLoadIn, defocusReader, Gen.C17.defocusLowers, h]
+
+theorem defocus_array_rows {K : Type} [_root_.Field K] (fG fC d : K) (rows : List (List K)) (out : List (Defocus K))
+    (h : defocusLoadIn fG fC d (.array rows) = some out) :
+    out.length = rows.length ∧ ∀ (i : Nat) (r : List K), rows[i]? = some r →
+      ∃ o, out[i]? = some o ∧ r = [o.defocus1, o.defocus2, o.astigmatism, o.phaseShift, o.defocusMean] := by
+  obtain ⟨hlen, hget⟩ := mapM_some_spec _ rows out h
+  refine ⟨hlen, ?_⟩
+  intro i r hr
+  obtain ⟨o, ho, hf⟩ := hget i r hr
+  refine ⟨o, ho, ?_⟩
+  match r, hf with
+  | [a, b, c, d', e], hf =>
+    simp only [Option.some.injEq] at hf
+    subst hf; rfl
+
+example : asciiLower "GCTF" = "gctf" ∧ asciiLower "CtfFind4" = "ctffind4" ∧ defocusReader "relion" = none ∧
+    defocusReader "Warp" = some "warp_ctf_read" := by decide
 
 end CryoCat.C17
